@@ -214,6 +214,10 @@ func checkRecord(c RCase) error {
 	if err := sameRecord(f, c0); err != nil {
 		return fmt.Errorf("unmarshal(marshal(v)): %v", err)
 	}
+	// the first record's bytes were held while another record was marshalled
+	if !bytes.Equal(out, refBytes) {
+		return fmt.Errorf("the bytes MarshalBinary returned for one record changed when another record was marshalled (offset %d)", firstDiff(out, refBytes))
+	}
 	// (3) with the high-profile extension appended (documented as ignored)
 	if c.Ext {
 		r := c.ref()
@@ -363,7 +367,55 @@ func checkSample(c SCase) error {
 	if err != nil || !bytes.Equal(b2, ref) {
 		return fmt.Errorf("marshal(unmarshal(b)) differs (err %v)", err)
 	}
+	// the first result is held while a different sample is marshalled
+	o := avc.NewAVCSample(c.LSM)
+	o.NALUs = append(o.NALUs, N{Hdr: 0x09, Len: 1, Fill: 0xf0}.nalu())
+	for i := len(c.NALUs) - 1; i >= 0 && len(c.NALUs[i].bytes()) < 1<<16; i-- {
+		o.NALUs = append(o.NALUs, c.NALUs[i].nalu())
+	}
+	if _, err := o.MarshalBinary(); err != nil {
+		return fmt.Errorf("marshal of a second sample: %v", err)
+	}
+	if !bytes.Equal(b, ref) {
+		return fmt.Errorf("the bytes MarshalBinary returned for one sample changed when another sample was marshalled (offset %d)", firstDiff(b, ref))
+	}
 	return nil
+}
+
+// TestSampleBoundaries: the sizes at which the 3- and 4-byte length prefixes run out or roll into
+// the next byte, one NAL unit each (deterministic, both tiers).
+func TestSampleBoundaries(t *testing.T) {
+	rec := ev.New(prop, "sample-length-boundaries", "one NAL unit of total size 2^16-1, 2^16, 2^16+1 (3- and 4-byte prefixes), 2^24-1 (largest for 3 bytes; 4 bytes), 2^24, 2^24+1 and 2^25+3 (4 bytes), alone and after a small unit; "+
+		"oracle as in 'samples'; every case non-trivial")
+	rec.Exhaustive()
+	type bc struct {
+		lsm  uint8
+		size int
+	}
+	var cases []bc
+	for _, sz := range []int{1<<16 - 1, 1 << 16, 1<<16 + 1, 1<<24 - 1} {
+		cases = append(cases, bc{2, sz}, bc{3, sz})
+	}
+	for _, sz := range []int{1 << 24, 1<<24 + 1, 1<<25 + 3} {
+		cases = append(cases, bc{3, sz})
+	}
+	for i, k := range cases {
+		if i%ev.Shards() != ev.Shard() {
+			continue
+		}
+		for _, lead := range []bool{false, true} {
+			c := SCase{LSM: k.lsm}
+			if lead {
+				c.NALUs = append(c.NALUs, N{Hdr: 0x67, Len: 3, Fill: 5})
+			}
+			c.NALUs = append(c.NALUs, N{Hdr: 0x65, Len: k.size - 1, Fill: uint64(i + 1)})
+			err := ev.Try(func() error { return checkSample(c) })
+			rec.Case(true, ev.Hash(c), []string{fmt.Sprintf("lsm%d", k.lsm)}, func() any { return c })
+			if err != nil {
+				fail(t, "samples", c, err)
+			}
+		}
+	}
 }
 
 var recSample = ev.New(prop, "samples",
